@@ -161,6 +161,9 @@ func (g *schemaGen) schema(depth int) *js.Schema {
 				if m[k] == nil {
 					m[k] = []string{}
 				}
+				if len(m[k]) == 0 && f.Name == "DependencyStrings" && r.chance(1, 2) {
+					m[k] = nil // a nil list under "dependencies": no requirement, like the empty one (never null: that reads back as a schema)
+				}
 			}
 			fv.Set(reflect.ValueOf(m))
 		case f.Type == schemaP:
